@@ -66,7 +66,7 @@ CLAIMED.update({
 CLAIMED.update({
     "C11": ("static exactly-once path enumeration, must-precede (close before read, copy before reset), sibling comparison of the two Chunker implementations, constant agreement of writer/reader suffix tables",
             "Structure of the chunk maker on all paths: one write per stream into the chunk current after roll-over, flush resets, records counted exactly when written, compressor closed before the buffer is read, chunk data is a copy, "
-            "id/option/count come from the same intermediate chunk, the id suffix written equals the suffix matched. Well-formedness of the encoded bytes and the limits as numbers are not decided.", "§4 C11"),
+            "id/option/count come from the same intermediate chunk, the id suffix written equals the suffix matched, constructor-wired encoder/buffer pairs are never re-bound. Well-formedness of the encoded bytes and the limits as numbers are not decided.", "§4 C11"),
     "C12": ("static reset-exhaustiveness over the struct's fields (enumerated from types), use-after-release path rule, backward taint from long-lived sinks to transient-string sources with deep-copy sanitizers, who-may-write",
             "Every LogRecord field is cleared on the recycle path or assigned by every producer; no use after the final release; transient strings reach long-lived maps/labels/constructors only through a deep copy; scratch buffers do not escape without a copy; no store of a record-transient string into any long-lived field, map or global of the per-record run-time set without a copy; "
             "serialization and rewriting never store into a record. sync.Pool behaviour and sampling state are not decided.", "§4 C12"),
